@@ -39,7 +39,7 @@ RULE = ('Hypothesis-generated interact() sessions: typed stream (all byte values
         'bytes) in 1-5 pieces, escape character absent/first/middle/last/repeated/None, input/output filters, child '
         'output script (0-4 writes incl. 2500-byte bursts), pending buffer at entry, bytes|utf-8, select|poll, child '
         'exit while interacting; one session in six is a paste of 60-150 KB typed while the child does not read yet, '
-        'with signals arriving at the copying thread every 2 ms (short writes to the child).  Non-trivial: the escape character is present with data on both sides of it in one '
+        'with signals arriving at the copying thread every 2 ms (short writes to the child); a flood tier types the escape while 500 KB of child output pass a slow output filter.  Non-trivial: the escape character is present with data on both sides of it in one '
         'write, or a burst > 1000 bytes, or a filter is installed.  Distinct by hash of the case.')
 ASSUMPTIONS = [
     'one write of <= 1000 bytes to a raw pty normally arrives in one read; the oracle (everything before the first '
